@@ -279,6 +279,97 @@ class AesMachine(lenrun.Machine):
             new = [s1[sel & 3], s1[(sel >> 2) & 3], s2[(sel >> 4) & 3], s2[(sel >> 6) & 3]] if nl == 4 else [s1[sel & 1], s2[(sel >> 1) & 1]]
             self.setv(d, new, vex=True)
             return
+        if op.startswith(("VALIGNQ", "VALIGND")) and len(srcl) >= 2 and i.mem < 0 and not masked:
+            im = [o[1] for o in i.ops if o[0] == "i"]
+            sh = (im[-1] if im else 0)
+            per = 2 if op.startswith("VALIGNQ") else 4
+            cat = list(srcl[1][:nl]) + list(srcl[0][:nl])          # low part first
+            new = []
+            for j in range(nl):
+                lo_el = j * per + sh
+                parts = {lo_el // per, (lo_el + per - 1) // per}
+                vals = [cat[q] for q in sorted(parts) if q < len(cat)]
+                if len(vals) == 1:
+                    new.append(vals[0])
+                else:
+                    ov = other_vals(vals or [PLAIN])
+                    new.append(ov)
+            self.setv(d, new, vex=True)
+            return
+        # right shifts of a tweak: either the extraction of the bits that a left shift pushes out (a fragment of the same
+        # product) or - where decryption needs the previous tweak - a division by alpha^c.  Both are covered by giving
+        # the result the exponent e - c: for a fragment that symbol is spurious, and only presence is ever demanded.
+        mrs = re.match(r"^V?(PSRLVQ|PSRLDQ|PSRLQ|PSRAQ|PSHRDQ|PSHRDVQ)", op)
+        if mrs and srcl:
+            kind = mrs.group(1)
+            im = [o[1] for o in i.ops if o[0] == "i"]
+            counts = None
+            if kind == "PSRLVQ" and mem_l is not None and a is not None and a[0] == "p" and isinstance(a[1], str) and a[1].startswith("data:"):
+                b_ = self.f.obj.initial_bytes(int(a[1][5:]), a[2], 16 * nl)
+                if b_ is not None and len(b_) == 16 * nl:
+                    counts = []
+                    for j in range(nl):
+                        q0 = int.from_bytes(b_[16 * j:16 * j + 8], "little")
+                        q1 = int.from_bytes(b_[16 * j + 8:16 * j + 16], "little")
+                        counts.append(q0 if q0 == q1 else None)
+            elif kind in ("PSRLDQ", "PSRLQ", "PSRAQ", "PSHRDQ") and im and i.mem < 0:
+                counts = [(im[-1] * 8 if kind == "PSRLDQ" else im[-1])] * nl
+            new = []
+            for j in range(nl):
+                vals = [L[j] for L in srcl]
+                c = counts[j] if counts is not None else None
+                data = set()
+                for v in vals:
+                    for x in v[2]:
+                        if x == "IV" or (isinstance(x, tuple) and x[0] == "TW"):
+                            e = 0 if x == "IV" else x[1]
+                            if c is None or e == "*":
+                                data.add(("TW", "*"))
+                            elif e - c >= 0:             # a negative exponent is a carry fragment: never a tweak anyone asks for
+                                data.add(("TW", e - c))
+                        else:
+                            data.add(x)
+                ov = other_vals(vals)
+                new.append((ov[0], E, frozenset(data)))
+            self.setv(d, new, vex=vex)
+            return
+        # XTS tweaks computed with vector shifts (VAES bodies): a left shift by c bits multiplies the tweak by alpha^c
+        msh = re.match(r"^V?(PSLLVQ|PSLLDQ|PSLLQ)", op)
+        if msh and srcl:
+            kind = msh.group(1)
+            counts = None
+            if kind == "PSLLVQ":
+                if mem_l is not None and a is not None and a[0] == "p" and isinstance(a[1], str) and a[1].startswith("data:"):
+                    b = self.f.obj.initial_bytes(int(a[1][5:]), a[2], 16 * nl)
+                    if b is not None and len(b) == 16 * nl:
+                        cs = []
+                        for j in range(nl):
+                            q0 = int.from_bytes(b[16 * j:16 * j + 8], "little")
+                            q1 = int.from_bytes(b[16 * j + 8:16 * j + 16], "little")
+                            cs.append(q0 if q0 == q1 else None)
+                        counts = cs
+            else:
+                im = [o[1] for o in i.ops if o[0] == "i"]
+                if im and i.mem < 0:
+                    counts = [(im[-1] * 8 if kind == "PSLLDQ" else im[-1])] * nl
+            src0 = srcl[0]
+            new = []
+            for j in range(nl):
+                v = src0[j]
+                c = counts[j] if counts is not None else None
+                data = set()
+                for x in v[2]:
+                    if x == "IV" or (isinstance(x, tuple) and x[0] == "TW"):
+                        e = 0 if x == "IV" else x[1]
+                        data.add(("TW", e + c) if (c is not None and e != "*") else ("TW", "*"))
+                        if kind == "PSLLDQ" and c != 8:
+                            data.add(("TW", e))         # a byte shift by more than one byte may be data movement, not a product
+                    else:
+                        data.add(x)
+                ov = other_vals([v])
+                new.append((ov[0], E, frozenset(data)))
+            self.setv(d, new, vex=vex)
+            return
         is_mov = re.match(r"^V?(MOVDQ[AU]|MOVAPS|MOVUPS|MOVDQA|MOVDQU)", op) is not None
         is_xor = XORS.match(op) is not None or (op.startswith("VPTERNLOG") and [o[1] for o in i.ops if o[0] == "i"][-1:] == [0x96])
         if LANEWISE.match(op) or is_xor:
@@ -458,16 +549,24 @@ def judge(m, chain=None):
 def judge_tweaks(m, L, decrypt):
     """XTS tweak sequence on the stores through out: block j carries tweak T*alpha^j; with r = L mod 16 != 0 the last
     full position (m-1) carries alpha^m when encrypting / alpha^(m-1) when decrypting, and the r tail bytes (the
-    store that starts at 16(m-1)+r) the other one.  Presence only.  Returns (ins, message) or None, judged count."""
+    store that starts at 16(m-1)+r) the other one.  Only the last store to each position counts (the VAES bodies
+    write position m-1 twice).  Presence only.  Returns (ins, message) or None, judged count."""
     nblk, r = L // 16, L % 16
-    n = 0
+    final = {}
     for (i, off, size, lanes, masked) in m.out_stores:
-        if size != 16 or masked:
+        if size < 16 or masked:
             continue
-        v = lanes[0]
+        for k, v in enumerate(lanes[:max(1, size // 16)]):
+            o = off + 16 * k
+            if o % 16 and size != 16:
+                continue
+            final[o] = (i, v)
+    n = 0
+    for o in sorted(final):
+        i, v = final[o]
         have = {x[1] for x in v[2] if isinstance(x, tuple) and x[0] == "TW"} | ({0} if "IV" in v[2] else set())
-        if off % 16 == 0:
-            j = off // 16
+        if o % 16 == 0:
+            j = o // 16
             if r and j == nblk - 1:
                 want = nblk - 1 if decrypt else nblk
             elif j < nblk:
@@ -476,12 +575,14 @@ def judge_tweaks(m, L, decrypt):
                 continue
             what = "output block %d" % j
         else:
-            if not r or off != 16 * (nblk - 1) + r:
+            if not r or o != 16 * (nblk - 1) + r:
                 continue
             want = nblk if decrypt else nblk - 1
             what = "the %d trailing byte(s)" % r
+        if not have:
+            continue            # no tweak symbol reached this value at all: the engine lost it; not judged
         n += 1
-        if want not in have:
+        if want not in have and "*" not in have:
             return (i, "`%s`: %s must be processed with the tweak multiplied by alpha^%d; the value stored depends on alpha^%s" % (
-                i.text.strip(), what, want, "{" + ", ".join(map(str, sorted(have))) + "}" if have else "no tweak at all")), n
+                i.text.strip(), what, want, "{" + ", ".join(map(str, sorted(have, key=str))) + "}")), n
     return None, n
